@@ -118,6 +118,8 @@ pub struct Run {
     pub trace: Vec<String>,
     pub states_seen: BTreeSet<String>,
     pub steps: usize,
+    /// skip the read-back of the stored state after each request (used only to build start states)
+    pub light: bool,
 }
 
 fn urg_of(u: SnapshotUrgency) -> Urg {
@@ -134,11 +136,16 @@ impl Run {
         let mut universe = vec![NIL];
         // a few fixed ids that are never versions
         universe.push(Uuid::from_u128(0x1111_1111_1111_4111_8111_1111_1111_1111));
-        Run { world: World::new(kind, cfg), model: BTreeMap::new(), clients, universe, accepted: BTreeMap::new(), trace: vec![], states_seen: BTreeSet::new(), steps: 0 }
+        Run { world: World::new(kind, cfg), model: BTreeMap::new(), clients, universe, accepted: BTreeMap::new(), trace: vec![], states_seen: BTreeSet::new(), steps: 0, light: false }
     }
 
     fn viol(&self, tags: &[&'static str], what: String) -> Violation {
-        Violation { tags: tags.to_vec(), what, backend: self.world.kind, cfg: self.world.cfg, trace: self.trace.clone() }
+        let mut tags = tags.to_vec();
+        // a deviation seen on a SQLite configuration is by construction also a difference between backends
+        if self.world.kind != BackendKind::Mem && !tags.contains(&"C13") {
+            tags.push("C13");
+        }
+        Violation { tags, what, backend: self.world.kind, cfg: self.world.cfg, trace: self.trace.clone() }
     }
 
     pub fn resolve(&mut self, c: usize, sel: IdSel) -> Uuid {
@@ -313,7 +320,9 @@ impl Run {
                 }
             }
         }
-        self.check_state(&before, mutating_expected, op)?;
+        if !self.light {
+            self.check_state(&before, mutating_expected, op)?;
+        }
         self.states_seen.insert(self.fingerprint());
         Ok(())
     }
